@@ -92,6 +92,27 @@ def nf(node, pol=True):
         return ('and', parts)
     if isinstance(node, ast.NamedExpr):
         return nf(node.value, pol)
+    if isinstance(node, ast.IfExp):
+        # (b if t else e)  ==  (t and b) or (not t and e), with the
+        # constant arms folded: `x if t else False` == `t and x`
+        def const(x):
+            return x.value if isinstance(x, ast.Constant) and isinstance(
+                x.value, bool) else None
+        t, b, e = node.test, node.body, node.orelse
+        if const(e) is False:
+            return nf(ast.BoolOp(op=ast.And(), values=[t, b]), pol)
+        if const(b) is True:
+            return nf(ast.BoolOp(op=ast.Or(), values=[t, e]), pol)
+        if const(b) is False:
+            return nf(ast.BoolOp(op=ast.And(), values=[
+                ast.UnaryOp(op=ast.Not(), operand=t), e]), pol)
+        if const(e) is True:
+            return nf(ast.BoolOp(op=ast.Or(), values=[
+                ast.UnaryOp(op=ast.Not(), operand=t), b]), pol)
+        return nf(ast.BoolOp(op=ast.Or(), values=[
+            ast.BoolOp(op=ast.And(), values=[t, b]),
+            ast.BoolOp(op=ast.And(), values=[
+                ast.UnaryOp(op=ast.Not(), operand=t), e])]), pol)
     return ('atom', node, pol)
 
 
